@@ -3,7 +3,8 @@
    every input and every parameter value in the stated range.  dist2 a b = |a - b|^2, l1n = l1 norm,
    sumsq = squared l2 norm, lsum = sum of the entries (Model/Prox.v, instantiated at R). *)
 From Coq Require Import List Reals QArith Bool.
-From TLV Require Import Base.Ops Model.Prox Proofs.ProxProofs Proofs.ProxProofsHard Proofs.ProxProofsRefute.
+From TLV Require Import Base.Ops Model.Prox Proofs.ProxProofs Proofs.ProxProofsHard Proofs.ProxProofsRefute
+  Proofs.ProxProofsSimplex Proofs.ProxProofsMono.
 Import ListNotations.
 Open Scope R_scope.
 
@@ -82,6 +83,60 @@ Theorem C12_hard_valid : forall k v, valid_ht Rops k v (hard_thresholding Rops k
 Proof. exact hard_valid. Qed.
 Print Assumptions C12_hard_valid.
 
+(* ---- simplex projection: (a) any max(v - tau, 0) summing to p is the projection; (b) the CODED sort / cumulative-sum /
+   count / threshold algorithm returns a feasible point, hence the projection, for every non-empty v and every p > 0;
+   it is idempotent and firmly non-expansive *)
+Theorem C12_simplex_characterisation : forall tau p v z,
+  length z = length v -> Forall (fun t => 0 <= t) z -> lsum Rops z = p ->
+  lsum Rops (map (fun x => relu Rops (x - tau)) v) = p ->
+  dist2 Rops (map (fun x => relu Rops (x - tau)) v) v <= dist2 Rops z v.
+Proof. exact simplex_characterisation. Qed.
+Print Assumptions C12_simplex_characterisation.
+Theorem C12_simplex_feasible : forall p v, 0 < p -> v <> [] ->
+  Forall (fun x => 0 <= x) (simplex_prox Rops p v) /\ lsum Rops (simplex_prox Rops p v) = p.
+Proof. exact simplex_feasible. Qed.
+Print Assumptions C12_simplex_feasible.
+Theorem C12_simplex_optimal : forall p v z, 0 < p -> v <> [] ->
+  length z = length v -> Forall (fun t => 0 <= t) z -> lsum Rops z = p ->
+  dist2 Rops (simplex_prox Rops p v) v <= dist2 Rops z v.
+Proof. exact simplex_optimal. Qed.
+Print Assumptions C12_simplex_optimal.
+Theorem C12_simplex_idempotent : forall p v, 0 < p -> v <> [] ->
+  simplex_prox Rops p (simplex_prox Rops p v) = simplex_prox Rops p v.
+Proof. exact simplex_idempotent. Qed.
+Print Assumptions C12_simplex_idempotent.
+Theorem C12_simplex_firmly_nonexpansive : forall p u v, 0 < p -> u <> [] -> length u = length v ->
+  dist2 Rops (simplex_prox Rops p u) (simplex_prox Rops p v) <= dotd (simplex_prox Rops p u) (simplex_prox Rops p v) u v.
+Proof. exact simplex_firmly_nonexpansive. Qed.
+Print Assumptions C12_simplex_firmly_nonexpansive.
+
+(* ---- monotone regression (maximum of running means + backward minimum pass): the output is ordered for EVERY input;
+   a vector accepted by the KKT certificate iso_cert (x ordered, residual r = v - x with sum r = 0, all suffix sums of r <= 0,
+   <r, x> = 0) is the least-squares non-decreasing fit, so the coded operator is optimal on every input on which its output
+   passes the certificate (decided exactly in Q on every case of the correspondence).
+   NOT proved (out of reach in this round): forall v, iso_cert Rops v (monotone_inc Rops v) = true, i.e. unconditional
+   optimality of min_{l>=k} max_{i<=l} mean(v[i..l]). *)
+Theorem C12_monotone_feasible : forall v,
+  ndec (monotonicity_prox Rops false v) /\ ndec (rev (monotonicity_prox Rops true v)) /\ 
+  length (monotonicity_prox Rops false v) = length v /\ length (monotonicity_prox Rops true v) = length v.
+Proof. exact monotone_feasible. Qed.
+Print Assumptions C12_monotone_feasible.
+Theorem C12_iso_cert_sound : forall v x, iso_cert Rops v x = true ->
+  ndec x /\ forall z, length z = length v -> ndec z -> dist2 Rops x v <= dist2 Rops z v.
+Proof. exact iso_cert_sound. Qed.
+Print Assumptions C12_iso_cert_sound.
+Theorem C12_monotone_optimal_partial : forall v, iso_cert Rops v (monotonicity_prox Rops false v) = true ->
+  forall z, length z = length v -> ndec z -> dist2 Rops (monotonicity_prox Rops false v) v <= dist2 Rops z v.
+Proof. exact monotone_optimal_partial. Qed.
+Print Assumptions C12_monotone_optimal_partial.
+
+(* ---- normalised sparsity: at most k non-zeros and unit l2 norm whenever the kept part is non-zero
+   (s = tl.norm(hard part), contract s*s = sum of squares) *)
+Theorem C12_normalized_sparsity_feasible : forall s k v, 0 < s -> s * s = sumsq Rops (hard_thresholding Rops k v) ->
+  sumsq Rops (normalized_sparsity_with Rops s k v) = 1 /\ (nnzR (normalized_sparsity_with Rops s k v) <= k)%nat.
+Proof. exact normalized_sparsity_feasible. Qed.
+Print Assumptions C12_normalized_sparsity_feasible.
+
 (* ---- generic: an optimal projection onto a convex set is firmly non-expansive *)
 Theorem C12_firmly_nonexpansive : forall n (C : list R -> Prop) (P : list R -> list R),
   convex_set n C ->
@@ -95,11 +150,13 @@ Theorem C12_l1ball_refuted : exists (p : Q) (v : list Q),
   Qle_bool (l1n Qops v) p = true /\ (dist2 Qops v v < dist2 Qops (soft_sparsity_prox Qops p v) v)%Q.
 Proof. exact l1ball_refuted. Qed.
 Print Assumptions C12_l1ball_refuted.
-Theorem C12_l1ball_partial : forall p v z,
-  0 <= simplex_tau Rops p (map (fabs Rops) v) -> l1n Rops (soft_sparsity_prox Rops p v) = p ->
-  length z = length v -> l1n Rops z <= p ->
+(* on or outside the ball (the complement of the refuted class) the coded operator IS the projection onto the l1 ball *)
+Theorem C12_l1ball_outside_feasible : forall p v, 0 < p -> p <= l1n Rops v -> l1n Rops (soft_sparsity_prox Rops p v) = p.
+Proof. exact l1ball_outside_feasible. Qed.
+Print Assumptions C12_l1ball_outside_feasible.
+Theorem C12_l1ball_partial : forall p v z, 0 < p -> p <= l1n Rops v -> length z = length v -> l1n Rops z <= p ->
   dist2 Rops (soft_sparsity_prox Rops p v) v <= dist2 Rops z v.
-Proof. exact l1ball_partial. Qed.
+Proof. exact l1ball_outside_optimal. Qed.
 Print Assumptions C12_l1ball_partial.
 Theorem C12_maxnorm_refuted : exists (v z : list Q),
   Qeq_bool (maxabs Qops z) 1 = true /\ (dist2 Qops z v < dist2 Qops (normalize Qops v) v)%Q.
@@ -118,4 +175,11 @@ Example C12_nonvacuous_soft :
   soft_thresholding Qops (11#10)%Q [1; -2; (3#2)]%Q = [0; (-9#10); (2#5)]%Q /\
   hard_thresholding Qops 2 [1; -3; 2; (1#2)]%Q = [0; -3; 2; 0]%Q /\
   sm_apply Qops (1#2)%Q 0%Q (smoothness_solve Qops (1#2)%Q [1;2;3]%Q) = [1;2;3]%Q.
+Proof. repeat split; vm_compute; reflexivity. Qed.
+Example C12_nonvacuous_simplex :
+  simplex_prox Qops (13#100)%Q [(4#10); (5#10); (1#10)]%Q = [(3#200); (23#200); 0]%Q /\
+  simplex_cert Qops (13#100)%Q (simplex_prox Qops (13#100)%Q [(4#10); (5#10); (1#10)]%Q) = true /\
+  Qle_bool (13#100) (l1n Qops [(4#10); (-5#10); (1#10)]%Q) = true /\
+  iso_cert Qops [3; -1; 2; 2; -5]%Q (monotonicity_prox Qops false [3; -1; 2; 2; -5]%Q) = true /\
+  monotonicity_prox Qops false [3; -1; 2; 2; -5]%Q = [(1#5); (1#5); (1#5); (1#5); (1#5)]%Q.
 Proof. repeat split; vm_compute; reflexivity. Qed.
